@@ -356,6 +356,18 @@ func rtSQLCase(k *engine.Case) {
 			out := tex.Base64Bytes{9, 9, 9}
 			err := out.Scan(in)
 			sqlCheck(k, "Base64Bytes.Scan", fmt.Sprintf("%T %s", in, s), err == nil && bytes.Equal(out, b), "Scan(Value()) = %x err=%v, original %x", []byte(out), err, b)
+			// database/sql hands Scan a []byte that is only valid during the call and is reused
+			// for the next row: the scanned value must not alias it, and Scan must not write into it
+			if raw, ok := in.([]byte); ok && err == nil && len(b) > 0 {
+				k.Count("sql.scan_bytes_buffer_reuse_checked", 1)
+				if string(raw) != s {
+					sqlCheck(k, "Base64Bytes.Scan", fmt.Sprintf("[]byte %s", s), false, "Scan wrote into the driver's buffer: it now reads %q", clip(string(raw)))
+				}
+				for j := range raw {
+					raw[j] = 'A' // the driver reuses its buffer for the next row
+				}
+				sqlCheck(k, "Base64Bytes.Scan", fmt.Sprintf("[]byte %s (buffer reused afterwards)", s), bytes.Equal(out, b), "after the driver buffer was reused the scanned value reads %x, original %x", []byte(out), b)
+			}
 		}
 		// any other text: error or the bytes it denotes
 		txt := mutateB64(r, s)
